@@ -709,7 +709,11 @@ class Typer:
                 else: items.append(it)
             text = repr(r)[:80]
             # a store through an index LIST with accumulation is not summed per repeated position
-            if r[6] is True and any(it[0] == 'idxs' for it in items):
+            def listlike(ik, it):
+                if it[0] in ('idxs', 'labs', 'tuple') or (it[0] == 'arr' and len(it[1]) >= 1): return True
+                if isinstance(ik, tuple) and (ik[:1] in (('comp',), ('list',)) or ik[:2] in (('opq', 'list'), ('opq', 'sorted'), ('opq', 'concat'), ('opq', 'np.array'), ('opq', 'np.asarray'))): return True
+                return False
+            if r[6] is True and any(listlike(ik, it) for ik, it in zip(idx, items)):
                 s.ob('scatter-accumulate', False, "augmented assignment through an index LIST: numpy buffers the operation, contributions that address the same position "
                      "more than once are not summed (use np.add.at or a matrix product)", text)
             res = s.index_array(base, items, text, 'store-index')
@@ -780,6 +784,14 @@ class Typer:
             vt = s.ty(eltk[1][1]) if isinstance(eltk, tuple) and eltk[:1] == ('tuple',) else unk('val')
             if kt[0] == 'lab' and vt[0] == 'idx':
                 if vt[2] is None and same(kt[1], vt[1]) is True: return ('dictmap', res)
+                # {element of L: its position in L}: the key is the element TERM of the enumerated list (a filtered comprehension is
+                # expressed over the element of its base list, so its label type alone is the unfiltered space)
+                if vt[2] is None and isinstance(it_k, tuple) and it_k[:2] == ('opq', 'enumerate'):
+                    L = it_k[2]
+                    want = L[2] if isinstance(L, tuple) and L[:1] == ('comp',) and len(L[3]) == 1 else ('poly', (((('β', 0, L), F(1)),), (F(1), F(0))))
+                    vat = _poly_items(eltk[1][1])
+                    if eltk[1][0] == want and vat and len(vat) == 1 and len(vat[0][0]) == 1 and vat[0][0][0][0] == ('idx', 0, L):
+                        return ('dictmap', vt[1])
                 return ('dictmap', U('LabelMapping'))
             if src[0] in ('components',) or (kt[0] in ('lab', 'num', 'unk') and vt[0] in ('num', 'unk')):
                 name = show(res).replace('#', '_')
